@@ -30,6 +30,9 @@ func main() {
 		fmt.Fprintln(os.Stderr, "unknown check; have:", names)
 		os.Exit(2)
 	}
+	if id := os.Args[1]; len(id) == 3 && id[0] == 'C' && os.Getenv("VERIF_GUARDED") == "" && vlib.SubRun() == "" {
+		guarded(id) // does not return
+	}
 	f()
 }
 
